@@ -23,15 +23,21 @@ const struct rcu_flavor_struct FLV = { .read_lock = f_lock, .read_unlock = f_unl
   .update_synchronize_rcu = f_sync, .thread_offline = f_noop, .thread_online = f_noop, .register_thread = f_noop, .unregister_thread = f_noop, .barrier = f_noop };
 
 /* ---- typed pools behind the custom allocator; the log records what is live and when it was freed */
-#define NBT 6
-#define BTSZ 8
+/* pool dimensions follow the table bound: order tables hold at most MAXB/2 nodes (chunk tables: MINB..), a table has log2(MAXB)+1 levels */
+#ifndef NBT
+#define NBT (MAXB >= 8 ? 6 : 5)
+#endif
+#ifndef BTSZ
+#define BTSZ (MAXB >= 8 ? 4 : (MAXB >= 4 ? 2 : 1))
+#endif
 union htobj { struct cds_lfht ht; char pad[sizeof(struct cds_lfht) + 64 * sizeof(void *)]; } HTOBJ;
 struct cds_lfht_node BT[NBT][BTSZ]; int bt_live[NBT]; unsigned long bt_n[NBT]; uint64_t bt_pub_gp[NBT];
 struct ht_items_count ITEMS[4]; int ht_live, items_live; int nbt;
 static void *a_calloc(void *st, size_t n, size_t sz) {
   (void)st;
   if (sz == sizeof(struct cds_lfht_node)) {
-    rt_assert(nbt < NBT && n <= BTSZ, "bucket pool large enough");
+    rt_assume(nbt < NBT);                 /* pool capacity is a bound of the obligation, not a property */
+    rt_assert(n <= BTSZ, "bucket table no larger than the table bound allows");
     int k = nbt++; bt_live[k] = 1; bt_n[k] = n;
     for (unsigned i = 0; i < BTSZ; i++) { BT[k][i].next = 0; BT[k][i].reverse_hash = 0; }
     return BT[k];
@@ -153,11 +159,17 @@ void seq(void) {
   setup(INIT, MINB, MAXB, 0);
   cds_lfht_add(ht, HK[UP(0)->key], &UP(0)->n); present[0] = 1;
   cds_lfht_add(ht, HK[UP(1)->key], &UP(1)->n); present[1] = 1;
+#ifdef REQ_N
+  unsigned long n = REQ_N;                 /* requested size fixed by the obligation; contents, keys and hashes stay symbolic */
+#else
   unsigned long n = rt_nondet_u64();
+#endif
 #ifdef EXCLUDE_NON_POW2
   rt_assume(n == 0 || (n & (n - 1)) == 0 || n > MAXB);
 #endif
+#ifndef REQ_N
   rt_cover(n == 3, "non power of two request"); rt_cover(n == ~0UL, "ULONG_MAX request"); rt_cover(n == 0, "zero request");
+#endif
   cds_lfht_resize(ht, n);
   check_all();
   unsigned long want = n < 1 ? 1 : n > MAXB ? MAXB : n;
